@@ -19,7 +19,7 @@ def _make_arrays(S, case):
             assume_order(S, L, "unique")
             labs[d] = L
             axes.append(S.da.Axis(L, "x%d" % d))
-        data = S.arraynd("a%d.data" % j, "f", tuple(S.n(labs[d]) for d in order))
+        data = S.arraynd("a%d.data" % j, (case.get("dks") or ["f"] * 9)[j], tuple(S.n(labs[d]) for d in order))
         arr = S.da.DimArray(data, axes=axes)
         arr.attrs.update({"units": "K"})
         arrays.append(arr)
@@ -87,6 +87,11 @@ class Stack(Contract):
                                 continue
                             yield {"name": "r%d-k%d-%s-%s-keys_%s" % (rank, k, {False: "same_order", True: "swapped", "all": "rotated"}[swapped], form, keys),
                                    "rank": rank, "k": k, "orders": _orders(rank, k, swapped), "swapped": bool(swapped), "form": form, "keys": keys}
+        # inputs of DIFFERENT data types (the narrower one first): every slice still holds its input's cells exactly
+        for dks in (["I", "f"], ["f", "I"]):
+            for rank in (1, 2):
+                yield {"name": "r%d-k2-same_order-list-keys_default-data_%s" % (rank, "".join(dks)), "rank": rank, "k": 2, "orders": _orders(rank, 2, False),
+                       "swapped": False, "form": "list", "keys": "default", "dks": dks}
 
     def bound_lengths(self, case):
         return ["a%d.lab%d.n" % (j, d) for j in range(case["k"]) for d in range(case["rank"])]
@@ -142,6 +147,8 @@ class Stack(Contract):
         for j in range(k):
             yield "slice-%d-holds-array-%d-at-every-label-coordinate" % (j, j), S.forall_nd(shape, lambda *p, j=j: S.same(
                 S.at(rv, j, *[p[d] for d in rorder]), _at_by_name(S, env["old"][j], case["orders"][j], p)))
+        if case.get("dks"):
+            yield "result-can-hold-every-inputs-values", S.kind(rv) == "f"
         yield "no-metadata-of-the-inputs", len(result.attrs) == 0
         yield "inputs-untouched", _inputs_untouched(S, case, env)
 
